@@ -153,13 +153,14 @@ def cmd_keep(args):
         r = json.load(open(f))
         d = r["dir"]
         sid = as_id or r["name"]
-        dst = os.path.join(V, "seeded", sid)
         meta = json.load(open(os.path.join(d, "meta.json")))
+        equivalent = r.get("kind") == "equivalent" or meta.get("kind") == "equivalent"
+        dst = os.path.join(V, "seeded-equivalent" if equivalent else "seeded", sid)
         if "confirm" in r:
             if not r["confirm"].get("confirmed"):
                 print("NOT CONFIRMED, not kept:", sid, {k: v for k, v in r["confirm"].items() if k != "changed_demo_tail"})
                 continue
-            meta["confirmed_by_me"] = {"how": "lib/selftest.py eval: scratch worktree of /repo HEAD", "unchanged_tree_demo": "passes", "changed_tree_lib_tests": r["confirm"].get("lib_tests"), "changed_tree_all_features_build": "ok", "changed_tree_demo": "FAILS"}
+            meta["confirmed_by_me"] = {"how": "lib/selftest.py eval: scratch worktree of /repo HEAD", "unchanged_tree_demo": "passes", "changed_tree_lib_tests": r["confirm"].get("lib_tests"), "changed_tree_all_features_build": "ok", "changed_tree_demo": "passes (behaviour-preserving change)" if equivalent else "FAILS"}
         elif "confirmed_by_me" not in meta:
             print("no confirmation on record, not kept:", sid)
             continue
@@ -168,6 +169,12 @@ def cmd_keep(args):
             for fn in ("patch.diff", "demo.rs"):
                 shutil.copy(os.path.join(d, fn), dst)
         c = r["check"]
+        if equivalent:
+            meta["check"] = {"cmd": "VERIF_REPO=<scratch worktree of /repo HEAD with the patch applied> ./check %s --tier %s (lib/selftest.py; /repo itself untouched)" % (r["property"], c.get("tier")),
+                             "verif_commit": r.get("verif_commit"), "exit": c.get("exit"), "quiet": c.get("exit") == 0, "secs": c.get("secs"), "violations": c.get("violations", []), "violation_keys": c.get("violation_keys", []), "other": c.get("other", []), "summary": c.get("summary", "")}
+            json.dump(meta, open(os.path.join(dst, "meta.json"), "w"), indent=1)
+            print("%s: kept (equivalent), %s" % (sid, "QUIET" if c.get("exit") == 0 else "ALARM (exit %s)" % c.get("exit")))
+            continue
         old = meta.get("check")
         if old and old.get("caught") is False and c.get("caught") and "history" not in meta:
             meta["history"] = "first run: missed (exit %s); caught after the checks were strengthened (see DESIGN.md §7)" % old.get("exit")
@@ -192,6 +199,14 @@ def cmd_table(args):
     caught = sum(1 for r in rows if "| caught" in r)
     t = ("%d seeded changes, %d reported by the quick check of their property (exit 1 with a natively reproduced VIOLATION), %d not. † = missed on its first run, caught after the check was strengthened (history in the change's meta.json).\n\n" % (n, caught, n - caught)
          + "| id | what it breaks | needs | quick check | reported by (scenario / harness) |\n|---|---|---|---|---|\n" + "\n".join(rows))
+    erows = []
+    for d in sorted(glob.glob(V + "/seeded-equivalent/*/")):
+        m = json.load(open(d + "meta.json"))
+        c = m.get("check", {})
+        erows.append("| %s | %s | %s |" % (os.path.basename(d.rstrip("/")), m.get("breaks", "")[:230].replace("|", "/").replace("\n", " "), "quiet (exit 0)" if c.get("quiet") else "**alarm** (exit %s: %s)" % (c.get("exit"), ", ".join(sorted(set(c.get("violations", []) or c.get("other", []))))[:100])))
+    if erows:
+        t += ("\n\n%d behaviour-preserving changes (the property still holds; the quick check must stay quiet), %d quiet:\n\n" % (len(erows), sum(1 for r in erows if "| quiet" in r))
+              + "| id | what was changed | quick check |\n|---|---|---|\n" + "\n".join(erows))
     p = V + "/DESIGN.md"
     s = open(p).read()
     block = "<!-- seeded-table -->\n" + t + "\n<!-- /seeded-table -->"
